@@ -327,6 +327,12 @@ func (c12) Gen(r *Rand, i int, tier string) Sx {
 	if r.Chance(60) {
 		n := 1 + r.Intn(8)
 		pool := c12Pool(r, n+2)
+		small := r.Chance(35)
+		if small { // coarse scores: ties between the best two shards become findable
+			for j := range pool {
+				pool[j] = L(pool[j].Nth(0), pool[j].Nth(1), AI(1+r.Intn(2)))
+			}
+		}
 		base := make([]int, n)
 		for j := range base {
 			base[j] = j
@@ -366,6 +372,13 @@ func (c12) Gen(r *Rand, i int, tier string) Sx {
 		hs := []Sx{}
 		for k := 0; k < nh; k++ {
 			hs = append(hs, AU(c12Hash(r)))
+		}
+		if n >= 2 && small {
+			for k := 0; k < 2; k++ {
+				if h, ok := c12TieHash(r, pool, base); ok {
+					hs = append(hs, AU(h))
+				}
+			}
 		}
 		return L(A(0), L(pool...), L(variants...), L(hs...))
 	}
@@ -418,7 +431,11 @@ func (c12) Gen(r *Rand, i int, tier string) Sx {
 func (c12) Class(in, obs Sx) (string, bool) {
 	if in.Nth(0).Int() == 0 {
 		n := in.Nth(2).Nth(0).Len()
-		return fmt.Sprintf("selector/shards%d", n), n >= 2
+		c := fmt.Sprintf("selector/shards%d", n)
+		if c12HasTie(in) {
+			c += "/tie"
+		}
+		return c, n >= 2
 	}
 	n := in.Nth(1).Len()
 	hasFM, hasFault := false, false
@@ -440,4 +457,86 @@ func (c12) Class(in, obs Sx) (string, bool) {
 		c += "/fault"
 	}
 	return c, n >= 2
+}
+
+// ---- generation aid only: a copy of the scoring arithmetic, used to FIND
+// hashes on which the two best shards tie (ties are what makes the sort by
+// key hash and the strict comparison observable).  Nothing is judged with it.
+var c12Lut = [65]uint16{
+	0x0000, 0x05ba, 0x0b5d, 0x10eb, 0x1664, 0x1bc8, 0x2119, 0x2656, 0x2b80, 0x3098, 0x359f, 0x3a94, 0x3f78, 0x444c, 0x4910, 0x4dc5,
+	0x526a, 0x5700, 0x5b89, 0x6003, 0x646f, 0x68ce, 0x6d20, 0x7165, 0x759d, 0x79ca, 0x7dea, 0x81ff, 0x8608, 0x8a06, 0x8dfa, 0x91e2,
+	0x95c0, 0x9994, 0x9d5e, 0xa11e, 0xa4d4, 0xa881, 0xac24, 0xafbe, 0xb350, 0xb6d9, 0xba59, 0xbdd1, 0xc140, 0xc4a8, 0xc807, 0xcb5f,
+	0xceaf, 0xd1f7, 0xd538, 0xd872, 0xdba5, 0xded0, 0xe1f5, 0xe513, 0xe82a, 0xeb3b, 0xee45, 0xf149, 0xf446, 0xf73e, 0xfa2f, 0xfd1a, 0,
+}
+
+func c12Len64(x uint64) int {
+	n := 0
+	for x != 0 {
+		n++
+		x >>= 1
+	}
+	return n
+}
+func c12Score(x uint64, weight uint64) uint64 {
+	msb := c12Len64(x >> 1)
+	bitfield := x << (64 - uint(msb))
+	index := bitfield >> 58
+	interp := bitfield << 6 >> 16
+	base, next := c12Lut[index], c12Lut[index+1]
+	frac := uint64(base)<<48 + uint64(next-base)*interp
+	lf := uint64(64)<<16 - ((uint64(msb) << 16) | frac>>48)
+	return (weight << 32) / lf
+}
+func c12Mix(x uint64) uint64 {
+	x ^= x >> 30
+	x *= 0xbf58476d1ce4e5b9
+	x ^= x >> 27
+	x *= 0x94d049bb133111eb
+	x ^= x >> 31
+	return x
+}
+
+// c12TieHash looks for a hash on which the two best of the given shards have
+// equal scores; ok=false when none was found within the budget.
+func c12TieHash(r *Rand, pool []Sx, members []int) (uint64, bool) {
+	for try := 0; try < 30000; try++ {
+		h := r.U64()
+		var best, second uint64
+		for _, m := range members {
+			s := c12Score(c12Mix(sxU64(pool[m].Nth(1))^h), sxU64(pool[m].Nth(2)))
+			if s > best {
+				second, best = best, s
+			} else if s > second {
+				second = s
+			}
+		}
+		if best == second {
+			return h, true
+		}
+	}
+	return 0, false
+}
+
+func c12HasTie(in Sx) bool {
+	pool := in.Nth(1).List
+	base := in.Nth(2).Nth(0).Ints()
+	for _, hx := range in.Nth(3).List {
+		h := sxU64(hx)
+		var best, second uint64
+		for _, m := range base {
+			if m >= len(pool) {
+				return false
+			}
+			s := c12Score(c12Mix(sxU64(pool[m].Nth(1))^h), sxU64(pool[m].Nth(2)))
+			if s > best {
+				second, best = best, s
+			} else if s > second {
+				second = s
+			}
+		}
+		if best == second && len(base) >= 2 {
+			return true
+		}
+	}
+	return false
 }
